@@ -13,7 +13,10 @@ POLL_NIL = list("ejsxku")          # pollOffer returns nil
 RELAY_BAD = list("brR")
 ANSWER_FAIL = list("agm")
 FAST_FAIL = POLL_NIL + RELAY_BAD + ["p"] + ANSWER_FAIL
-OPEN = ["o", "A", "+"]             # leave a slot held after the op
+OPEN = ["o", "A", "+", "O"]        # leave a slot held after the op
+# ops O<x> / Q<x>: the sessions o / q with a client whose offer (or data channel) looks different
+VARIANTS = {"p": "public", "l": "local-only", "n": "no-candidates", "6": "ipv6-only", "m": "mdns-only",
+            "u": "unordered-unlabelled-datachannel"}
 OPNAME = {
     "e": "poll-http-error", "j": "poll-malformed-body", "s": "poll-empty-status", "x": "poll-error-status",
     "k": "poll-match-without-offer", "u": "poll-undecodable-offer", "n": "poll-no-match-then-error",
@@ -23,6 +26,14 @@ OPNAME = {
     "A": "answer-fail-after-datachannel-open", "+": "bare-get", "c": "client-close", "d": "relay-close",
     "-": "bare-ret", "B": "blocked-at-capacity", "E": "final-poll",
 }
+
+
+def opname(op):
+    """stable name of an op for keys: O<x>/Q<x> carry the shape of the client's offer"""
+    if op[:1] in "OQ" and len(op) == 2:
+        base = OPNAME["o" if op[0] == "O" else "q"]
+        return "%s-%s-offer" % (base, VARIANTS.get(op[1], op[1])) if op[1] != "u" else "%s-%s" % (base, VARIANTS["u"])
+    return OPNAME.get(op[:1], op[:1])
 
 
 def parse_res(tok):
@@ -51,37 +62,46 @@ def walk(line, impl):
         return (0, "?", "panic", "implementation panicked/died: " + impl[:200])
     res = impl.split(",") if impl != "-" else []
     held = set()       # session ids holding a slot
+    made = {}          # session id -> the op that started it
     sid = 0
+    op = "?"
+
+    def nm():
+        """the op a failure is named after: O<x>/Q<x> carry the shape of the client's offer; the slot of a session
+        that never got a handler shows as a leak when its client leaves, and is named after the session"""
+        if op[:1] in "cd" and op[1:].isdigit() and made.get(int(op[1:]), "o")[:1] == "O":
+            return made[int(op[1:])]
+        return op if op[:1] in "OQ" else op[:1]
     waiting = False    # start mode: the loop is parked in tokens.get()
     for i, op in enumerate(ops):
         k = op[0]
         if i >= len(res):
-            return (i, k, "no-result", "no result for op %d (%s); earlier: %s" % (i, op, impl[-120:]))
+            return (i, nm(), "no-result", "no result for op %d (%s); earlier: %s" % (i, op, impl[-120:]))
         r = res[i]
         before = len(held)
         if r.startswith("!blocked-get"):
             if cap == 0 or before < cap:
-                return (i, k, "get-blocked", "tokens.get() blocked with %d of %d slots in use: a slot was leaked" % (before, cap))
-            return (i, k, "bad-script", "script asked for a session at capacity")
+                return (i, nm(), "get-blocked", "tokens.get() blocked with %d of %d slots in use: a slot was leaked" % (before, cap))
+            return (i, nm(), "bad-script", "script asked for a session at capacity")
         if r.startswith("!blocked-session"):
-            return (i, k, "session-never-returns", "runSession did not return (%s): tokens.ret() blocks on a channel another release already drained" % r[17:60])
+            return (i, nm(), "session-never-returns", "runSession did not return (%s): tokens.ret() blocks on a channel another release already drained" % r[17:60])
         if r.startswith("!blocked-ret"):
-            return (i, k, "ret-blocked", "tokens.ret() blocked: the channel was already drained (released twice)")
+            return (i, nm(), "ret-blocked", "tokens.ret() blocked: the channel was already drained (released twice)")
         if r.startswith("!"):
-            return (i, k, "driver", "driver could not run the op: " + r[:200])
+            return (i, nm(), "driver", "driver could not run the op: " + r[:200])
         if mode == "start" and k == "B":
             if r != "B1":
-                return (i, k, "not-blocked", "with %d of %d slots in use the Start loop polled for one more client" % (before, cap))
+                return (i, nm(), "not-blocked", "with %d of %d slots in use the Start loop polled for one more client" % (before, cap))
             waiting = True
             continue
         if mode == "start" and k in "cd":
             held.discard(int(op[1:]))
             if r != "-":
-                return (i, k, "format", "unexpected result " + r)
+                return (i, nm(), "format", "unexpected result " + r)
             continue
         pr = parse_res(r)
         if pr is None:
-            return (i, k, "format", "unparsable result " + r)
+            return (i, nm(), "format", "unparsable result " + r)
         count, chl, polls = pr
         at_poll = before + 1
         at_polls = None    # slots in use when each poll of the op was computed (None: at_poll for all)
@@ -99,29 +119,30 @@ def walk(line, impl):
         else:
             if k in OPEN:
                 held.add(sid)
+            made[sid] = op
             sid += 1
         after = len(held)
         expect = at_poll if mode == "start" else after     # start mode samples at poll arrival
         for j, (p, measured) in enumerate(polls):
             inuse = at_poll if at_polls is None or j >= len(at_polls) else at_polls[j]
             if p % 8 != 0:
-                return (i, k, "load-not-multiple-of-8", "poll %d of op %d (%s) reported Clients=%d, not a multiple of 8" % (j, i, op, p))
+                return (i, nm(), "load-not-multiple-of-8", "poll %d of op %d (%s) reported Clients=%d, not a multiple of 8" % (j, i, op, p))
             if p < 0 or p > inuse or p > measured:
-                return (i, k, "load-exceeds-in-use", "poll %d of op %d (%s) reported Clients=%d with %d slots in use (tokens.count()=%d at that moment)" % (j, i, op, p, inuse, measured))
+                return (i, nm(), "load-exceeds-in-use", "poll %d of op %d (%s) reported Clients=%d with %d slots in use (tokens.count()=%d at that moment)" % (j, i, op, p, inuse, measured))
             if measured < inuse:
-                return (i, k, "released-twice", "at poll %d of op %d (%s) tokens.count()=%d but %d slots are held: a slot was released twice" % (j, i, op, measured, inuse))
+                return (i, nm(), "released-twice", "at poll %d of op %d (%s) tokens.count()=%d but %d slots are held: a slot was released twice" % (j, i, op, measured, inuse))
             if measured > inuse:
-                return (i, k, "leaked", "at poll %d of op %d (%s) tokens.count()=%d but only %d slots are held: a slot leaked" % (j, i, op, measured, inuse))
+                return (i, nm(), "leaked", "at poll %d of op %d (%s) tokens.count()=%d but only %d slots are held: a slot leaked" % (j, i, op, measured, inuse))
         if count < expect:
-            return (i, k, "released-twice", "after op %d (%s) tokens.count()=%d but %d slots are held: a slot was released twice" % (i, op, count, expect))
+            return (i, nm(), "released-twice", "after op %d (%s) tokens.count()=%d but %d slots are held: a slot was released twice" % (i, op, count, expect))
         if count > expect:
-            return (i, k, "leaked", "after op %d (%s) tokens.count()=%d but only %d slots are held: a slot leaked" % (i, op, count, expect))
+            return (i, nm(), "leaked", "after op %d (%s) tokens.count()=%d but only %d slots are held: a slot leaked" % (i, op, count, expect))
         if cap != 0 and chl != expect:
-            return (i, k, "channel", "after op %d (%s) len(tokens.ch)=%d but %d slots are held" % (i, op, chl, expect))
+            return (i, nm(), "channel", "after op %d (%s) len(tokens.ch)=%d but %d slots are held" % (i, op, chl, expect))
         if cap != 0 and count > cap:
-            return (i, k, "over-capacity", "%d slots in use with capacity %d" % (count, cap))
+            return (i, nm(), "over-capacity", "%d slots in use with capacity %d" % (count, cap))
         if k not in "cd-+" and len(polls) != (len(at_polls) if at_polls else 2 if k == "n" else 1):
-            return (i, k, "polls", "op %d (%s) saw %d polls" % (i, op, len(polls)))
+            return (i, nm(), "polls", "op %d (%s) saw %d polls" % (i, op, len(polls)))
     return None
 
 
@@ -135,7 +156,7 @@ def key_of(line, impl, model):
     if not w:
         return "correspondence"
     cls = {"session-never-returns": "released-twice", "ret-blocked": "released-twice", "get-blocked": "leaked"}.get(w[2], w[2])
-    return "%s:%s" % (OPNAME.get(w[1], w[1]), cls)
+    return "%s:%s" % (opname(w[1]), cls)
 
 
 def rand_script(rng, cap, n, allow_slow=False):
@@ -150,8 +171,10 @@ def rand_script(rng, cap, n, allow_slow=False):
                 k = rng.choice(FAST_FAIL)
             elif y < 0.60:
                 k = "q"
-            elif y < 0.80:
+            elif y < 0.68:
                 k = "o"
+            elif y < 0.80:
+                k = rng.choice(["O", "O", "Q"]) + rng.choice("pln6mu")
             elif y < 0.92:
                 k = "A"
             else:
@@ -159,7 +182,7 @@ def rand_script(rng, cap, n, allow_slow=False):
             if allow_slow and rng.random() < 0.1:
                 k = rng.choice("tTn")
             ops.append(k)
-            if k in OPEN:
+            if k[0] in OPEN:
                 held[sid] = k
             sid += 1
         else:
@@ -219,6 +242,15 @@ def gen(ctx):
         add(cap, "o,c0", "single-open-client-close")
         add(cap, "o,d0", "single-open-relay-close")
         add(cap, "A,c0", "single-answer-fail-after-open")
+    # the shape of the client's offer / data channel (ops O<x>, Q<x>): a session that reaches an open data channel must
+    # get its handler - and give the slot back when the handler ends - whatever webRTCConn.RemoteAddr() makes of the offer
+    for j, x in enumerate("pln6mu"):
+        cap = (0, 1, 3)[j % 3]
+        add(cap, "O%s,%s0,e" % (x, "cd"[j % 2]), "offer-shape-open")
+        add((1, 3, 0)[j % 3], "Q%s,e" % x, "offer-shape-relay-unreachable")
+    # capacity 2 filled by two such clients, released, refilled: a slot lost to either shows as a blocked get
+    for x, y in (("l", "n"), ("m", "6"), ("u", "l"), ("n", "m")):
+        add(2, "O%s,O%s,c0,d1,Q%s,O%s,o,c3,c4,e" % (x, y, x, y), "offer-shape-fill-release-refill")
     # every ordered pair of exit-path classes (one representative each), overlapping an open session
     reps = ["e", "u", "b", "r", "R", "p", "a", "g", "q", "o", "A"]
     for x in reps:
